@@ -4,7 +4,8 @@
   field '(a,b)f' has a*b*4 bytes; dtype((sub, shape)) has itemsize(sub) * prod(shape).
 * `numpy.memmap(path, dtype, mode, offset[, shape])` over a file of `filesize` bytes:
     - with shape: raises ValueError unless offset + itemsize*prod(shape) <= filesize -- EXCEPT in the writing
-      modes 'r+'/'w+', where numpy extends the file (so the read can never fail there);
+      modes 'r+'/'w+', where numpy extends the file with zeros (not modelled: such a path is reported unsupported,
+      contracts exclude it by a precondition and the bounded harness covers those cut points);
     - without shape: raises ValueError unless (filesize - offset) % itemsize == 0; the map then has
       (filesize - offset) / itemsize elements.
   (behaviour of the installed numpy 2.x, pinned by rtc/camx.py running the real readers on every prefix)
@@ -182,14 +183,23 @@ def memmap(I, args, kw):
         need = sym.add(offset, sym.mul(dt.itemsize, n))
         if isinstance(mode, str) and mode in ('r+', 'w+'):
             if I.ctx.branch(sym.gt(need, size)):
-                I.ctx.ghost.setdefault('file_extended', []).append(need)   # numpy grows the file: fabricated zeros
+                # numpy grows the file and every field read from the new region is a fabricated zero: the contract's
+                # pinned header fields would no longer describe the file -- outside this model
+                I.ctx.ghost.setdefault('file_extended', []).append(need)
+                raise Unsupported('memmap in mode %s past the end of the file (numpy extends the file)' % mode)
         elif I.ctx.branch(sym.gt(need, size)):
             raise PyExc('ValueError')
         if I.ctx.branch(sym.lt(n, 0)):
             raise PyExc('ValueError')
         return StructArr(dt, n, offset, 0)
     rest = sym.sub(size, offset)
-    if I.ctx.branch(sym.Or(sym.lt(rest, 0), sym.ne(sym.mod(rest, dt.itemsize), 0))):
+    cond = sym.Or(sym.lt(rest, 0), sym.ne(sym.mod(rest, dt.itemsize), 0))
+    mc = dict(cond=cond, rest=rest, itemsize=dt.itemsize, fact=None)
+    I.ctx.ghost.setdefault('memmap_checks', []).append(mc)
+    n0 = len(I.ctx.pc)
+    if I.ctx.branch(cond):
+        if len(I.ctx.pc) > n0:
+            mc['fact'] = I.ctx.pc[-1]       # the (simplified) condition as it stands on the path
         raise PyExc('ValueError')
     return StructArr(dt, sym.floordiv(rest, dt.itemsize), offset, 0)
 
@@ -284,3 +294,22 @@ def _iterate(I, v):
 
 models.register_hook('iterate', _iterate)
 models.register_hook('len_', lambda I, x: x.n if isinstance(x, StructArr) else None)
+
+
+def _max_hook(I, args):
+    from .nparr import SArr
+    if len(args) == 2 and any(isinstance(a, FieldArr) for a in args):
+        vals = []
+        for a in args:
+            if isinstance(a, FieldArr):
+                vals.append(field_value(I, a, 0))
+            elif isinstance(a, SArr) and not is_sym(a.shape[0]) and a.shape[0] == 1:
+                vals.append(a.get(0))
+            else:
+                return None
+        m = sym.max_(vals[0], vals[1])
+        return SArr((1,), lambda q: m, 'i', tag='max')
+    return None
+
+
+models.register_hook('max_', _max_hook)
